@@ -12,7 +12,7 @@
    matches. *)
 Require Import Cherab.Common.Qx.
 From Coq Require Import Qabs Qround.
-Require Import Cherab.Model.C04_Beam.
+Require Import Cherab.Model.C04_Beam Cherab.Model.C04_Policy.
 Open Scope Q_scope.
 
 (* ---- stub families ---- *)
@@ -158,17 +158,36 @@ Definition check_direction (c : beam_cfg) (p : Q * Q * Q * (Q * Q * Q)) : bool :
     Qle_bool (Qabs (vy raw - lam * dy)) (tol_dir * lam) &&
     Qle_bool (Qabs (vz raw - lam * dz)) (tol_dir * lam).
 
+(* SingleRayAttenuator.density called directly at an on-axis point: the recorded value is -2 when the call
+   raised ValueError (outside the interpolator's domain), else the density *)
+Definition check_direct (sqrtf expf : Q -> Q) (nodes : list (Q * Q)) (c : beam_cfg) (p : Q * Q * Q * Q) : bool :=
+  let '(x, y, z, v) := p in
+  match attenuator_density_direct sqrtf expf nodes c x y z with
+  | None => Qeq_bool v (-2)
+  | Some m =>
+      if Qeq_bool m 0 then Qeq_bool v 0
+      else Qltb 0 m && Qle_bool 0 v &&
+           close tol_density (tol_interp * seg_max nodes z * gaussian_of expf c (sigma_x sqrtf c z) (sigma_y sqrtf c z) 0) m v
+  end.
+
+(* setter histories on a live Beam / SingleRayAttenuator: which calls raised ValueError (exactly) and what the
+   getters return afterwards (values that were set are doubles and compare exactly up to the rounding of the
+   decimal defaults and of clamp_sigma ** 2: 2^-52) *)
+Definition check_sets (ops : list (field * Q)) (oks : list bool) (finals : list (field * Q)) : bool :=
+  let '(st, moks) := run_sets initial ops in
+  forallb2 Bool.eqb moks oks && forallb (fun fv => close (pow2 (-52)) 0 (stored st (fst fv)) (snd fv)) finals.
+
 Definition count_eq (k : Z) (l : list Z) : Z := Z.of_nat (length (filter (Z.eqb k) l)).
 
 (* result of one case:  code + 1000 * (number of ambiguous density probes), where code is
    0 agree | 100 whole case ambiguous (a step profile undecided in floating point at an axis node)
    9 constants | 1 number of axis nodes | 2 stopping-rate arguments | 3 stopping coefficient values
    5 an oracle table entry is missing (harness fault or a disagreement upstream)
-   4 density | 6 direction *)
+   4 density | 6 direction | 7 source density (attenuator._source_density) | 8 SingleRayAttenuator.density called directly *)
 Definition check_case (stubs : list stub) (c0 : beam_cfg) (amu : Q)
            (stab : tree Q) (etab : tree (Q * Q))
-           (n_impl : Z) (args_impl : list (Q * Q * Q)) (coef_impl : list Q)
-           (dens : list (Q * Q * Q * Q)) (dirs : list (Q * Q * Q * (Q * Q * Q))) : Z :=
+           (n_impl : Z) (src_impl : Q) (args_impl : list (Q * Q * Q)) (coef_impl : list Q)
+           (adens : list (Q * Q * Q * Q)) (dens : list (Q * Q * Q * Q)) (dirs : list (Q * Q * Q * (Q * Q * Q))) : Z :=
   let c := mkcfg (b_energy c0) (b_power c0) (b_mass c0) (b_sigma c0) (b_tx c0) (b_ty c0) (b_len c0)
                  (a_step c0) (a_clamp c0) (a_clamp_sigma c0) (m_axis c0) (m_origin c0)
                  (map species_of stubs) (k_cf c0) (k_ec c0) (k_pi c0) in
@@ -193,11 +212,13 @@ Definition check_case (stubs : list stub) (c0 : beam_cfg) (amu : Q)
                                         map (fun s => let '(e, n, t) := stopping_args (k_cf c) bv d s r in
                                                       sp_coef s e n t) sp) pts in
         if negb (forallb2 (close tol_args 0) mcoef coef_impl) then 3%Z
+        else if negb (close tol_args 0 (source_density sqrtf c) src_impl) then 7%Z
         else
           let nodes := line_nodes_n sqrtf expf c n_impl in
           if existsb (fun zy => Qltb (snd zy) 0) nodes then 5%Z
           else
             let dres := map (check_density sqrtf expf nodes c) dens in
-            if negb (count_eq 1 dres =? 0)%Z then 4%Z
+            if negb (forallb (check_direct sqrtf expf nodes c) adens) then 8%Z
+            else if negb (count_eq 1 dres =? 0)%Z then 4%Z
             else if negb (forallb (check_direction c) dirs) then 6%Z
             else (1000 * count_eq 2 dres)%Z.
